@@ -25,7 +25,6 @@ import (
 	"sync"
 	"time"
 
-	"github.com/fatedier/golib/errors"
 	"github.com/samber/lo"
 	"golang.org/x/sync/errgroup"
 
@@ -206,9 +205,13 @@ func (c *Controller) HandleVisitor(m *msg.NatHoleVisitor, transporter transport.
 		delete(c.sessions, sid)
 	}()
 
-	if err := errors.PanicToError(func() {
-		clientCfg.sidCh <- sid
-	}); err != nil {
+	// The xtcp proxy may be closed (or busy with earlier requests) and never read the sid:
+	// don't wait for ever, otherwise the session stays registered for good.
+	select {
+	case clientCfg.sidCh <- sid:
+	case <-time.After(time.Duration(NatHoleTimeout) * time.Second):
+		log.Debugf("notify xtcp proxy [%s] timeout, sid [%s]", m.ProxyName, sid)
+		_ = transporter.Send(c.GenNatHoleResponse(m.TransactionID, nil, fmt.Sprintf("xtcp server for [%s] is not ready", m.ProxyName)))
 		return
 	}
 
